@@ -66,6 +66,9 @@ type listener struct {
 
 // Accept implements Listener.
 func (ln *listener) Accept() (net.Conn, error) {
+	if e := verifFault(vfltAccept, ln.fd); e != 0 {
+		return nil, e
+	}
 	fd, sa, err := syscall.Accept(ln.fd)
 	if err != nil {
 		/* https://man7.org/linux/man-pages/man2/accept.2.html
